@@ -23,7 +23,7 @@ import (
 // positioned discussion (GitLab).
 type Comment struct {
 	ID       int64  `json:"id"`
-	MR       int    `json:"mr,omitempty"` // GitLab: merge request the discussion belongs to
+	MR       int    `json:"mr,omitempty"`     // GitLab: merge request the discussion belongs to
 	Thread   string `json:"thread,omitempty"` // GitLab discussion id
 	Author   int    `json:"author"`
 	Path     string `json:"path"`
@@ -82,6 +82,10 @@ type Forge struct {
 	crashed bool
 	PerPage int
 	MRs     int // GitLab: open merge requests of the source branch (same diff, separate discussions)
+	// Yield, when set, is a scheduling point in front of every request: requests that are in flight
+	// at the same time are served in the order the scenario's tape decides, not in the order the Go
+	// runtime happened to run their goroutines.
+	Yield func(point, detail string)
 }
 
 func New(kind string) *Forge { return &Forge{Kind: kind, nextID: 100, PerPage: 100, MRs: 1} }
@@ -210,6 +214,9 @@ func writeJSON(w http.ResponseWriter, code int, v any) {
 
 func (f *Forge) ServeHTTP(w http.ResponseWriter, r *http.Request) {
 	body, _ := io.ReadAll(r.Body)
+	if f.Yield != nil {
+		f.Yield("forge", r.Method+" "+r.URL.Path)
+	}
 	op, handler := f.route(r)
 	f.mu.Lock()
 	n := f.reqInRun
